@@ -220,6 +220,21 @@ def _r2_instance_memos(ctx, repo):
 
 
 
+def _expand_locals(ns, defs_):
+    """names a set of names stands for once single-definition locals are replaced (transitively) by what they read"""
+    out, stack, seen = set(), list(ns), set()
+    while stack:
+        n_ = stack.pop()
+        if n_ in seen:
+            continue
+        seen.add(n_)
+        if n_ in defs_:
+            stack.extend(names_in(defs_[n_]) - {"id"})
+        else:
+            out.add(n_)
+    return out
+
+
 def run(ctx):
     repo = ctx.repo
     ctx.rule("R1", "autograd Functions: backward reads no class state; run-time class attributes are set by the constructor at every apply site")
@@ -401,11 +416,50 @@ def run(ctx):
         keydef = [st for st in ast.walk(f) if isinstance(st, ast.Assign) and norm(st.targets[0]) == "key"]
         valdef = [st for st in ast.walk(f) if isinstance(st, ast.Assign) and norm(st.targets[0]) == "cached" and not (isinstance(st.value, ast.Call) and callee_attr(st.value) == "get")]
         if not keydef or not valdef:
-            raise AnalysisError(f"{fn}: key/value not found")
-        kin, vin = names_in(keydef[0].value) - {"id"}, names_in(valdef[0].value)
-        ctx.check(vin <= kin, "R2", fk, f, fn, keydef[0], f"{fn}: every input of the cached value {sorted(vin)} is part of the key {sorted(kin)}",
+            # delegated form: `return H(<cache table>, <key>, <base>, **to_kwargs)` where H stores `table[key] = base.to(**to_kwargs)` under its own parameters
+            key_expr = None
+            for r_ in ast.walk(f):
+                if not (isinstance(r_, ast.Return) and isinstance(r_.value, ast.Call) and isinstance(r_.value.func, ast.Name) and r_.value.func.id in fk.functions):
+                    continue
+                c_, h_ = r_.value, fk.functions[r_.value.func.id]
+                hp_ = [a.arg for a in h_.args.args]
+                if len(c_.args) < 3 or len(hp_) < 3 or not (isinstance(c_.args[0], ast.Name) and c_.args[0].id == cache) or h_.args.kwarg is None:
+                    continue
+                stores_ = [st for st in ast.walk(h_) if isinstance(st, ast.Assign) and isinstance(st.targets[0], ast.Subscript) and norm(st.targets[0].value) == hp_[0]
+                           and norm(st.targets[0].slice) == hp_[1]]
+                hdefs_ = {norm(st.targets[0]): st.value for st in ast.walk(h_) if isinstance(st, ast.Assign) and isinstance(st.targets[0], ast.Name)}
+                val_ = stores_[0].value if len(stores_) == 1 else None
+                if isinstance(val_, ast.Name):
+                    val_ = hdefs_.get(val_.id)
+                good_ = isinstance(val_, ast.Call) and callee_attr(val_) == "to" and norm(val_.func.value) == hp_[2] and not val_.args \
+                    and len(val_.keywords) == 1 and val_.keywords[0].arg is None and norm(val_.keywords[0].value) == h_.args.kwarg.arg
+                if good_:
+                    key_expr = c_.args[1]
+                    vin = names_in(c_.args[2]) | set().union(*[names_in(k_.value) for k_ in c_.keywords] or [set()])
+                    # locals of the wrapper that are pure functions of its own parameters count as the parameters they read
+                    wdefs_ = {norm(st.targets[0]): st.value for st in ast.walk(f) if isinstance(st, ast.Assign) and isinstance(st.targets[0], ast.Name)}
+                    expand_ = lambda ns: _expand_locals(ns, wdefs_)
+                    kin, vin = expand_(names_in(key_expr) - {"id"}), expand_(vin)
+                    report_ = r_
+            if key_expr is None:
+                # direct form without named key / value locals: `TABLE[<key expr>] = <value>` (e.g. after the helper above was inlined)
+                wdefs_ = {norm(st.targets[0]): st.value for st in ast.walk(f) if isinstance(st, ast.Assign) and isinstance(st.targets[0], ast.Name)}
+                st_ = [st for st in ast.walk(f) if isinstance(st, ast.Assign) and isinstance(st.targets[0], ast.Subscript) and norm(st.targets[0].value) == cache]
+                if len(st_) == 1:
+                    v_ = st_[0].value
+                    if isinstance(v_, ast.Name) and v_.id in wdefs_:
+                        v_ = wdefs_[v_.id]
+                    expand_ = lambda ns: _expand_locals(ns, wdefs_)
+                    key_expr, report_ = st_[0].targets[0].slice, st_[0]
+                    kin, vin = expand_(names_in(key_expr) - {"id"}), expand_(names_in(v_))
+            if key_expr is None:
+                raise AnalysisError(f"{fn}: key/value not found")
+        else:
+            key_expr, report_ = keydef[0].value, keydef[0]
+            kin, vin = names_in(keydef[0].value) - {"id"}, names_in(valdef[0].value)
+        ctx.check(vin <= kin, "R2", fk, f, fn, report_, f"{fn}: every input of the cached value {sorted(vin)} is part of the key {sorted(kin)}",
                   f"{fn}: cached value depends on {sorted(vin - kin)} which is not in the cache key: a later call with another value gets a stale tensor")
-        uses_id = any(isinstance(c.func, ast.Name) and c.func.id == "id" for c in calls_in(keydef[0].value))
+        uses_id = any(isinstance(c.func, ast.Name) and c.func.id == "id" for c in calls_in(key_expr))
         # call sites
         for c in calls_in(fk.tree):
             if isinstance(c.func, ast.Name) and c.func.id == fn:
